@@ -104,4 +104,23 @@ func VerifHarness_C03() {
 		verifAssert("C03.no-cloud-request-when-untaint-suffices", verifImplies(verifAnd(below, rest <= 0), j.increaseAttempts == 0))
 		verifReachIf("C03.restored-from-cloud", verifAnd(below, j.added > 0))
 	}
+	if F == 1 {
+		// the one failure hit a Kubernetes call: the cloud side worked, so what could not be untainted
+		// (accepted untaint writes are what counts) must be requested
+		nodeCallFailed := false
+		for _, e := range w.J.Calls[mark:] {
+			if !e.OK && (e.Kind == "NodeGet" || e.Kind == "NodeUntaint" || e.Kind == "NodeUpdate") {
+				nodeCallFailed = true
+			}
+		}
+		if nodeCallFailed {
+			need := minEff - s.untainted
+			rest := need - int64(j.untaints)
+			headCloud := asgMax - desired
+			headBoth := imin(maxEff, asgMax) - desired
+			okCloud := verifOr(rest <= 0, verifOr(j.added == imax(0, imin(rest, headCloud)), j.added == imax(0, imin(rest, headBoth))))
+			verifAssert("C03.requests-what-untainting-did-not-restore", verifImplies(below, okCloud))
+			verifReachIf("C03.untaint-failed-below-minimum", verifAnd(below, rest > 0))
+		}
+	}
 }
